@@ -4,6 +4,7 @@
 #include <stdio.h>
 int dyadic20(const char* name, double v);
 int dump_cover(void) {
+    printf("Definition t_COVER_prime4bytes : N := %llu%%N.\n", (unsigned long long)COVER_prime4bytes);
     printf("Definition t_COVER_MAX_SAMPLES_SIZE : N := %llu%%N.\n", (unsigned long long)(size_t)COVER_MAX_SAMPLES_SIZE);
     return dyadic20("COVER_DEFAULT_SPLITPOINT", COVER_DEFAULT_SPLITPOINT);
 }
